@@ -390,7 +390,7 @@ class Evaluator:
             return self.project(f2, val, [list(x) if isinstance(x, tuple) else x for x in k[3:]], k[:3])
         return v
 
-    def eval_from(self, fn, bb, env, until):
+    def eval_from(self, fn, bb, env, until, start_stmt=0):
         """evaluate from block bb with initial local environment env until every local in `until` has been (re)assigned;
         returns the environment"""
         fr = Frame(fn)
@@ -399,7 +399,7 @@ class Evaluator:
         pending = set(until)
         self._until = (fr, pending)
         try:
-            self.call_fn(fn, [], frame=fr, start=bb)
+            self.call_fn(fn, [], frame=fr, start=bb, start_stmt=start_stmt)
         except _Stop:
             pass
         finally:
@@ -408,7 +408,7 @@ class Evaluator:
             raise Unsupported("region ended before %s were assigned" % sorted(pending))
         return fr.env
 
-    def call_fn(self, fn, args, frame=None, start=0):
+    def call_fn(self, fn, args, frame=None, start=0, start_stmt=0):
         if frame is None:
             fr = Frame(fn)
             self.frames[fr.id] = fr
@@ -421,7 +421,11 @@ class Evaluator:
             self.steps += 1
             if self.steps > self.max_steps:
                 raise Unsupported("step limit")
-            for st in fn.stmts(bb):
+            stmts = fn.stmts(bb)
+            if start_stmt:
+                stmts = stmts[start_stmt:]
+                start_stmt = 0
+            for st in stmts:
                 if st[0] == "=":
                     self.write_place(fr, st[1], self.rvalue(fr, st[2]))
                     u = getattr(self, "_until", None)
